@@ -28,9 +28,10 @@ OWNERS = [
 ]
 ALL = ["C%02d" % i for i in range(1, 21)]
 
-# whole-system properties: "behaves like a fresh parser after clear" (C13), "observers never alter decoding" (C15) and
-# "unused blocks are irrelevant" (C03) quantify over everything the library does, so every function is theirs
-EVERYWHERE = ["C03", "C13", "C15"]
+# whole-system properties: "behaves like a fresh parser after clear" (C13), "observers never alter decoding" (C15),
+# "unused blocks are irrelevant" (C03), "no undefined behaviour" (C05), "no state outside the object" (C19) and "all builds
+# decode identically" (C20) quantify over everything the library does, so every function is theirs
+EVERYWHERE = ["C03", "C05", "C13", "C15", "C19", "C20"]
 
 def owners_of(text):
     props = set()
@@ -81,28 +82,58 @@ def untranslated_beyond_design():
             out.append((name, reason))
     return out
 
+def unchecked_dependents(failed_mods):
+    """(file, theorem name, statement) of every theorem about translated C functions that lives in a module importing,
+    directly or not, one of the modules that failed to build"""
+    files = {}
+    for sub in ("RdsProofs", "RdsProps"):
+        d = os.path.join(LEAN, sub)
+        for f in sorted(os.listdir(d)):
+            if f.endswith(".lean") and (f.startswith("Trans") or f == "Refinement.lean"):
+                files[sub + "." + f[:-5]] = os.path.join(d, f)
+    imports = {m: set(re.findall(r"^import (\S+)", open(p).read(), re.M)) for m, p in files.items()}
+    bad = set(m for m in failed_mods if m in files)
+    changed = True
+    while changed:
+        changed = False
+        for m, imp in imports.items():
+            if m not in bad and imp & bad:
+                bad.add(m); changed = True
+    out = []
+    for m in sorted(bad - set(failed_mods)):
+        text = open(files[m]).read()
+        for mm in re.finditer(r"^(?:private |protected )?(?:theorem|lemma)\s+(\S+)(.*?)(?::=\s*(?:by\b|$))", text, re.M | re.S):
+            stmt = mm.group(2)
+            if len(stmt) < 4000 and re.search(r"c_rdsparser_\w+|cSetField|cRegister|cstep|crun", stmt):
+                out.append((m.replace(".", "/") + ".lean", mm.group(1), stmt))
+    return out
+
 def check(ctx, locked=True):
     """build the refinement module; returns dict(status=ok|broken|absent|unavailable, broken=[{decl, file, owners}], log)"""
     if not os.path.exists(os.path.join(LEAN, "RdsProps", "Refinement.lean")):
         return {"status": "absent", "broken": []}
     extra = untranslated_beyond_design()
+    pre_broken = []
     if extra:
         # The C source now uses a construct outside the translator's subset: the model of these functions cannot be
         # regenerated from the source, so the refinement theorems about them cannot be re-checked on this tree. That is a
         # broken obligation like a failing proof (it may be a harmless rewrite; it may as well hide a change of behaviour):
-        # the properties whose proofs rest on these functions search for a failing input and report either way.
-        broken = []
+        # the properties whose proofs rest on these functions search for a failing input and report either way. The
+        # theorems about the functions that ARE still translated are re-checked below as usual.
         roots = [(n, r) for n, r in extra if not r.startswith("calls ")] or extra
         for n, r in roots:
             own = sorted(owners_of("c_" + n)) if any(re.search(pat, n) for pat, _ in OWNERS) else []
-            broken.append({"file": "RdsC/Translated.lean", "line": 0, "decl": "c_" + n,
-                           "msg": "not translatable on this tree: " + r[:160], "owners": own})
-        if not any(b["owners"] for b in broken):
-            for b in broken: b["owners"] = ALL
-        return {"status": "untranslatable", "broken": broken, "untranslated": [{"function": n, "reason": r} for n, r in extra][:20]}
+            pre_broken.append({"file": "RdsC/Translated.lean", "line": 0, "decl": "c_" + n,
+                               "msg": "not translatable on this tree: " + r[:160], "owners": own})
+        if not any(b["owners"] for b in pre_broken):
+            for b in pre_broken: b["owners"] = ALL
     ok, out, dt = infra.lake_build([REFINE_MODULE], locked=locked)
     res = {"status": "ok" if ok else "broken", "broken": [], "build_s": round(dt, 1)}
-    if ok:
+    if extra:
+        res["status"] = "untranslatable"
+        res["untranslated"] = [{"function": n, "reason": r} for n, r in extra][:20]
+        res["broken"] = list(pre_broken)
+    if ok and not extra:
         # axiom audit of the refinement theorems (same rule as for the property theorems)
         thms = [m.group(1) for m in re.finditer(r"^-- THEOREM: (\S+)", open(os.path.join(LEAN, "RdsProps", "Refinement.lean")).read(), re.M)]
         axs, raw, rc = infra.print_axioms(REFINE_MODULE, thms)
@@ -128,6 +159,15 @@ def check(ctx, locked=True):
             stmt = text
         res["broken"].append({"file": rel, "line": line, "decl": name, "msg": msg[:200],
                               "owners": sorted(ALL if generated or name is None else owners_of(stmt))})
+    # Lean stops at the first module that fails: every module that imports it (transitively) was not checked at all, so the
+    # refinement theorems stated there are unverified on this tree as well
+    failed_mods = set(b["file"][:-5].replace("/", ".") for b in res["broken"] if b["file"].endswith(".lean"))
+    for rel, name, stmt in unchecked_dependents(failed_mods):
+        own = sorted(owners_of(stmt))
+        if own and (rel, name) not in seen:
+            seen.add((rel, name))
+            res["broken"].append({"file": rel, "line": 0, "decl": name, "msg": "not checked: its module depends on " + ", ".join(sorted(failed_mods))[:120],
+                                  "owners": own})
     if not res["broken"]:
         res["broken"].append({"file": "?", "line": 0, "decl": None, "msg": out[-400:], "owners": ALL})
     res["log"] = out[-3000:]
